@@ -55,6 +55,8 @@ struct Upstream {
     qname: String, // lower-cased
     qtype: Rtype,
     qclass: Class,
+    /// Further questions of the request (lower-cased name, type).
+    more: Vec<(String, Rtype)>,
     flags: Flags,
     class: RespClass,
     view: Option<View>, // None = transport error
@@ -111,6 +113,7 @@ impl SendRequest<RequestMessage<Vec<u8>>> for UpstreamStub {
             let h = msg.header();
             let q = msg.first_question().expect("question");
             let qname_s = format!("{}", q.qname());
+            let more: Vec<(String, Rtype)> = msg.question().skip(1).filter_map(|x| x.ok()).map(|x| (format!("{}", x.qname()).to_ascii_lowercase(), x.qtype())).collect();
             let flags = Flags {
                 rd: h.rd(),
                 cd: h.cd(),
@@ -184,6 +187,7 @@ impl SendRequest<RequestMessage<Vec<u8>>> for UpstreamStub {
                 qname: qname_s.to_ascii_lowercase(),
                 qtype: q.qtype(),
                 qclass: q.qclass(),
+                more,
                 flags,
                 class,
                 view,
@@ -398,6 +402,8 @@ struct Query {
     qname: String,
     qtype: Rtype,
     qclass: Class,
+    /// Further questions (lower-cased name, type); nearly always none.
+    more: Vec<(String, Rtype)>,
     flags: Flags,
     t_invoke: u64,
     t_return: u64,
@@ -477,6 +483,7 @@ fn check_query(q: &Query, log: &[Upstream], cfg: &Cfg) {
                     && u.qname == lower
                     && u.qtype == q.qtype
                     && u.qclass == q.qclass
+                    && u.more == q.more
                     && flags_compatible(&q.flags, &u.flags).is_ok()
                     && u.t_ret_ns <= q.t_return
                     && (q.t_invoke.saturating_sub(u.t_ret_ns)) <= cfg.transport_failure * 1_000_000_000
@@ -491,7 +498,7 @@ fn check_query(q: &Query, log: &[Upstream], cfg: &Cfg) {
             // serial: match them by time/shape below.
             let cands: Vec<&Upstream> = if serials.is_empty() {
                 log.iter()
-                    .filter(|u| u.view.as_ref().is_some_and(|v| v.recs.is_empty()) && u.qname == lower && u.qtype == q.qtype && u.qclass == q.qclass && u.t_ret_ns <= q.t_return)
+                    .filter(|u| u.view.as_ref().is_some_and(|v| v.recs.is_empty()) && u.qname == lower && u.qtype == q.qtype && u.qclass == q.qclass && u.more == q.more && u.t_ret_ns <= q.t_return)
                     .collect()
             } else if serials.len() > 1 {
                 fail("origin", "mixed-serials", format!("response mixes records of several upstream responses: {:x?}", serials));
@@ -519,8 +526,8 @@ fn check_query(q: &Query, log: &[Upstream], cfg: &Cfg) {
 fn check_against(q: &Query, r: &View, u: &Upstream, cfg: &Cfg) -> Result<(), (String, String)> {
     let e = |sig: &str, d: String| Err((sig.to_string(), format!("vs upstream #{:x} ({:?} at {:.3}s, flags {:?}): {}", u.serial, u.class, u.t_ret_ns as f64 / 1e9, u.flags, d)));
     let uv = u.view.as_ref().unwrap();
-    if u.qname != q.qname.to_ascii_lowercase() || u.qtype != q.qtype || u.qclass != q.qclass {
-        return e("wrong-question", format!("upstream response was for {} {} {}", u.qname, u.qclass, u.qtype));
+    if u.qname != q.qname.to_ascii_lowercase() || u.qtype != q.qtype || u.qclass != q.qclass || u.more != q.more {
+        return e("wrong-question", format!("upstream response was for {} {} {} and {} more question(s) {:?}", u.qname, u.qclass, u.qtype, u.more.len(), u.more));
     }
     if u.t_ret_ns > q.t_return {
         return e("from-the-future", "upstream response is younger than the delivery".into());
@@ -541,7 +548,8 @@ fn check_against(q: &Query, r: &View, u: &Upstream, cfg: &Cfg) -> Result<(), (St
         }
     }
     // Question.
-    if r.questions.len() != 1 || r.questions[0].0.to_ascii_lowercase() != u.qname || r.questions[0].1 != q.qtype || r.questions[0].2 != q.qclass {
+    let more_ok = r.questions.iter().skip(1).map(|x| (x.0.to_ascii_lowercase(), x.1)).collect::<Vec<_>>() == q.more;
+    if r.questions.len() != 1 + q.more.len() || !more_ok || r.questions[0].0.to_ascii_lowercase() != u.qname || r.questions[0].1 != q.qtype || r.questions[0].2 != q.qclass {
         return e("question-changed", format!("question {:?}", r.questions));
     }
     // Header.
@@ -718,6 +726,13 @@ async fn run(_tier: Tier) {
                 // Mostly the Internet class; now and then the same name and
                 // type in another class, which is another question.
                 let qclass = if sim::chance("q.other_class", 1, 10) { *sim::pick("q.class", &[Class::CH, Class::HS]) } else { Class::IN };
+                // A second question now and then: a different question section
+                // is a different question.
+                let more: Vec<(String, Rtype)> = if sim::chance("q.second_question", 1, 12) {
+                    vec![(format!("n{}.cache", sim::draw("q.name2", n_names)), [Rtype::A, Rtype::TXT][sim::draw("q.type2", 2) as usize])]
+                } else {
+                    Vec::new()
+                };
                 let fl = sim::draw("q.flags", 16) & flag_mask;
                 let flags = Flags {
                     rd: fl & 1 != 0,
@@ -731,6 +746,9 @@ async fn run(_tier: Tier) {
                 mb.header_mut().set_ad(flags.ad);
                 let mut qb = mb.question();
                 qb.push((Name::<Vec<u8>>::from_chars(qname.chars()).unwrap(), qtype, qclass)).unwrap();
+                for (n2, t2) in &more {
+                    qb.push((Name::<Vec<u8>>::from_chars(n2.chars()).unwrap(), *t2)).unwrap();
+                }
                 let mut req = RequestMessage::new(qb.into_message()).unwrap();
                 if flags.dnssec_ok {
                     req.set_dnssec_ok(true);
@@ -740,7 +758,7 @@ async fn run(_tier: Tier) {
                 let t_invoke = sim::now_ns();
                 let n_up_before = 0;
                 let _ = n_up_before;
-                ev!("q k={} {} {} {} {:?} invoke", k, qname, qclass, qtype, flags);
+                ev!("q k={} {} {} {} {:?} more={:?} invoke", k, qname, qclass, qtype, flags, more);
                 let mut gr = conn.send_request(req);
                 let res = gr.get_response().await;
                 sim::sync_clock();
@@ -764,6 +782,7 @@ async fn run(_tier: Tier) {
                     qname,
                     qtype,
                     qclass,
+                    more,
                     flags,
                     t_invoke,
                     t_return,
